@@ -18,9 +18,9 @@ Symbols are their rank in Python's (code point) order, so the natural order is `
 `<start>` is `N` or a word; `max` is `N` or a natural; `<keys>` lists the key value of every
 symbol rank.
 -/
+import AutomataVerif.Model.NFACache
 import AutomataVerif.Driver.Proto
 import AutomataVerif.Model.DFACache
-import AutomataVerif.Model.NFACache
 
 namespace AV.Driver.DfaQuery
 open AV AV.Proto AV.DFA
